@@ -112,6 +112,7 @@ pub const VALID_EXPRS: &[&str] = &[
     "<math><mi>&#x1D63C;</mi><mo>,</mo><mi>&#x1D655;</mi></math>",
     "<math><mn>2</mn><mi intent=':silent'>x</mi></math>",
     "<math><mn mathvariant='sans-serif'>2</mn><mo>+</mo><mn>&#x1D7E4;</mn></math>",
+    "<math><mi>&#x1D63C;</mi><mo>+</mo><mi>&#x1D655;</mi><mo>=</mo><mn>2</mn><mo>&#x225F;</mo><mn>3</mn><mo>&#x22BB;</mo><mi>y</mi></math>",
 ];
 
 /// First index of the regression section of VALID_EXPRS: the minimised expressions of defects that were found on the
